@@ -93,6 +93,7 @@ type Config struct {
 	Mode             Mode
 	Strategy         HintStrategy
 	Permissive       bool // when the honest hint fails (panic/error), fall back to a permissive generic hint
+	PermissiveFlavor int  // 0: the integer quotient / limbs; 1: for limb splits the pair (0, x) - another value a prover may supply when the honest hint refuses
 	TrackBounds      bool
 	Leaves           map[*big.Int]string // witness leaf identity -> path
 	RecordEvts       map[string]bool     // hook kinds to record (nil = none, "*" = all)
@@ -691,7 +692,11 @@ func (c *comp) NewHint(f solver.Hint, nbOutputs int, inputs ...frontend.Variable
 		}
 	}
 	if err != nil && cfg.Permissive {
-		if g := GenericHint(name, call.Inputs, nbOutputs); g != nil {
+		g := GenericHint(name, call.Inputs, nbOutputs)
+		if g != nil && cfg.PermissiveFlavor == 1 && name == "SplitLimbsHint" {
+			g = []*big.Int{new(big.Int), new(big.Int).Mod(call.Inputs[0], R)}
+		}
+		if g != nil {
 			cfg.count("permissive")
 			out = make([]frontend.Variable, len(g))
 			for i, s := range g {
